@@ -17,7 +17,7 @@ pub fn check() -> Check {
         spec: CheckSpec {
             id: "C15",
             level: "exploration",
-            rule: "one case = one scenario against a child process running the real Server with max_connections = N (2-8). (1) Limit: N connections are opened and each proven live by a request/reply; an (N+1)-th client sends a request and is watched for 500 ms: a reply that arrives while the N others are still open and all answer another request afterwards is a violation; then one of the N is closed and the waiting client must be served. Also 3N clients connect at once and the number served-and-still-open is watched while served ones are closed in rounds until all were served. (2) Leak: a batch of 2N-6N connections is ended in one way (clean close; close mid-frame; malformed command so that the server closes; a panic inside the connection's handler task; a panic on the blocking thread; reset with unread replies; or arriving during a 30-90 ms descriptor shortage of the server process, in which accept() fails with EMFILE and is retried), in overlapping groups, and then a full-capacity probe opens N fresh connections that must all be served at the same time. One evaluation = one limit observation or one capacity probe. Non-trivial/distinct = distinct (N, ending kind, batch size, overlap) probes and limit observations.",
+            rule: "one case = one scenario against a child process running the real Server with max_connections = N (2-8). (1) Limit: N connections are opened and each proven live by a request/reply; an (N+1)-th client sends a request and is watched for 500 ms: a reply that arrives while the N others are still open and all answer another request afterwards is a violation; then one of the N is closed and the waiting client must be served. Also 3N clients connect at once and the number served-and-still-open is watched while served ones are closed in rounds until all were served. (2) Leak: a batch of 2N-6N connections is ended in one way (clean close; close mid-frame; malformed command so that the server closes; a panic inside the connection's handler task; a panic on the blocking thread; reset with unread replies; or arriving during a 30-90 ms descriptor shortage of the server process, in which accept() fails with EMFILE and is retried; or being reset while still in the listen backlog because every slot is taken), in overlapping groups, and then a full-capacity probe opens N fresh connections that must all be served at the same time. One evaluation = one limit observation or one capacity probe. Non-trivial/distinct = distinct (N, ending kind, batch size, overlap) probes and limit observations.",
             assumptions: vec![
                 "the only wall-clock negative observation is 'no reply within 500 ms', and it is never a verdict by itself: the verdict is a reply that does arrive while N others are provably being served",
                 "handler panics are produced by the harness's storage wrapper (serve.rs: PanickyKv); listener, semaphore accounting and handler are the real code",
@@ -64,7 +64,7 @@ fn got_reply(c: &mut Conn, within: Duration) -> bool {
     c.rx.reply(Instant::now() + within).is_ok()
 }
 
-const ENDINGS: &[&str] = &["clean-close", "close-mid-frame", "malformed-command", "handler-panic", "blocking-thread-panic", "reset-with-unread-replies", "accept-failure"];
+const ENDINGS: &[&str] = &["clean-close", "close-mid-frame", "malformed-command", "handler-panic", "blocking-thread-panic", "reset-with-unread-replies", "accept-failure", "reset-in-backlog"];
 
 /// Open a connection and end it in the given way. Returns true if the server closed it.
 fn faulty_connection(port: u16, kind: &str, r: &mut Rng) -> bool {
@@ -275,6 +275,39 @@ fn scenario(ctx: &Ctx, case: u64, out: &mut Out) {
         ctx.breadcrumb(case, &format!("leak {} x{}", kind, batch));
         let mut closed_by_server = 0;
         let mut left = batch;
+        if kind == "reset-in-backlog" {
+            // every slot is taken by a live connection; further peers connect (the kernel completes
+            // the handshake into the listen backlog), and are reset (SO_LINGER 0) before the listener
+            // gets to them; then the slots are freed and the listener accepts sockets that are
+            // already dead. Each of those took a slot and has to give it back
+            use std::os::unix::io::AsRawFd;
+            left = 0;
+            let mut fillers: Vec<Conn> = (0..n).filter_map(|_| open(port)).collect();
+            let mut live = 0;
+            for (i, c) in fillers.iter_mut().enumerate() {
+                if ping(c, &format!("bl{}", i), Duration::from_secs(20)) {
+                    live += 1;
+                }
+            }
+            if live == n {
+                let k = r.range(1, 2 * n as u64);
+                for _ in 0..k {
+                    if let Ok(mut a) = connect(port) {
+                        let _ = a.write_all(b"*1\r\n");
+                        let lg = libc::linger { l_onoff: 1, l_linger: 0 };
+                        unsafe { libc::setsockopt(a.as_raw_fd(), libc::SOL_SOCKET, libc::SO_LINGER, &lg as *const _ as *const libc::c_void, std::mem::size_of::<libc::linger>() as libc::socklen_t) };
+                        drop(a);
+                    }
+                }
+                out.count("peers_reset_while_in_the_listen_backlog", k);
+                std::thread::sleep(Duration::from_millis(r.range(5, 30)));
+            }
+            while let Some(f) = fillers.pop() {
+                drop(f);
+                std::thread::sleep(Duration::from_millis(r.range(0, 5)));
+            }
+            std::thread::sleep(Duration::from_millis(100));
+        }
         if kind == "accept-failure" {
             // connections that arrive while the server process is out of descriptors: accept()
             // fails (EMFILE) and is retried by the listener until the shortage is over; the client
@@ -320,7 +353,7 @@ fn scenario(ctx: &Ctx, case: u64, out: &mut Out) {
             }
             left -= g;
         }
-        if kind != "accept-failure" {
+        if kind != "accept-failure" && kind != "reset-in-backlog" {
             out.count(&format!("connections_ended_by_{}", kind), batch as u64);
         }
         out.count("connections_closed_by_server", closed_by_server);
